@@ -368,7 +368,7 @@ def narrow(genfile, failures, linemap, timeout=900):
     return failures
 
 
-def retry_rlimit(genfile, fn, module, linemap, scale=4, timeout=3600):
+def retry_rlimit(genfile, fn, module, linemap, scale=3, timeout=1200):
     """A function that exhausted its resource limit is verified again, alone, with `scale` times the limit.
     Returns ('ok', []) if it verifies, ('failed', failures) if the verifier now names failing obligations,
     ('rlimit', []) if it is still out of resources."""
